@@ -215,8 +215,7 @@ LONG_NAMES = ["é" * 100, "日" * 80, "a bcd" * 40, "é" * 100 + ".gmi", "\U0001
               "a" * 254, "a" * 255, "a" * 256, "é" * 127, "é" * 127 + "a", "é" * 128, "日" * 85, "日" * 85 + "a",
               "a" * 249 + "é", "a" * 250 + "é", "a" * 126 + " " + "a" * 126, "a" * 127 + " " + "a" * 126, "é" * 42 + "aaa", "é" * 42 + "aaaa", "é" * 43,
               "日" * 28 + "aaa", "日" * 28 + "aaaa", "日" * 29, "%" * 85, "%" * 86, "e\u0301" * 60]
-OVERLONG = [n for n in LONG_NAMES if len(n.encode("utf-8")) > 255]
-NAMES = T.NAMES * 3 + [n for n in LONG_NAMES if n not in OVERLONG]          # about one generated name in six is a long one
+NAMES = T.NAMES * 3 + LONG_NAMES          # about one generated name in six is a long one
 
 
 def _own_requests(rel_inside: str):
@@ -292,13 +291,13 @@ def _requests(rng, tree, n, own_p=0.3):
     return paths
 
 
-def _judge(paths, res, ents, outside, mx, when=""):
+def _judge(paths, res, ents, outside, mx, when="", safety=True, complete=True):
     """the property, evaluated on the answers to `paths` against the tree `ents` the requests met"""
     outside = set(outside)
     files = {e[2]: e for e in ents if e[0] == "f"}
     plain = [e for e in _plain_inside_files(ents) if e[3] and e[4] <= mx]
     for sp, o in zip(paths, res):
-        for lvl, r, x in (("handler", o["r"], o["x"]),) + ((("wire", o["p"], o["px"]),) if "p" in o else ()):
+        for lvl, r, x in ((("handler", o["r"], o["x"]),) + ((("wire", o["p"], o["px"]),) if "p" in o else ())) if safety else ():
             leaked = sorted(set(x["sent"]) & outside)
             if leaked:
                 return ("outside-content", f"{when}{lvl}: request {_short(sp)} -> response contains the content of file(s) {[files[i][1] for i in leaked]} whose real path lies outside the document root")
@@ -314,7 +313,7 @@ def _judge(paths, res, ents, outside, mx, when=""):
         # completeness: the own path of a plain regular file, written literally, percent-encoded (every byte outside
         # `unreserved` escaped, either hex case) or partly percent-encoded
         u = T.url_path(sp)
-        if u[0] != "ok" or not plain:
+        if u[0] != "ok" or not plain or not complete:
             continue
         for e in plain:
             how = _denotes(u[1], e[1][len("root/"):])
@@ -529,11 +528,16 @@ class Sequence(Family):
         return True
 
     def oracle(self, case, obs):
+        whens = []
         for k, (rd, ob) in enumerate(zip(case["rounds"], obs["rounds"])):
             when = "" if k == 0 else f"one handler, round {k} after {_fold('; '.join(rd.get('did') or ['an edit of the tree']))[:170]} - "
-            v = _judge(rd["paths"], ob["res"], ob["ents"], ob["outside"], obs["max"], when)
-            if v is not None:
-                return v
+            whens.append(when)
+        # containment first (over all rounds), then reachability
+        for part in ({"complete": False}, {"safety": False}):
+            for rd, ob, when in zip(case["rounds"], obs["rounds"], whens):
+                v = _judge(rd["paths"], ob["res"], ob["ents"], ob["outside"], obs["max"], when, **part)
+                if v is not None:
+                    return v
         return None
 
     def key(self, case, obs):
